@@ -1,9 +1,9 @@
 (* C09 -- Buffer levels follow loads/unloads in time order and stay within bounds.  Statements only. *)
 From Coq Require Import ZArith List Bool.
 From Coq Require String.
-From PS.model Require Import Smt Enc Ind Prog.
+From PS.model Require Import Smt Enc Ind Prog Driver.
 From PS.spec Require Import Spec.
-From PS.proofs Require Import Base C09_proof C09_levels Examples3.
+From PS.proofs Require Import Base C09_proof C09_levels Bubble C09_conc Examples3.
 Import ListNotations.
 Open Scope Z_scope.
 
@@ -15,15 +15,42 @@ Open Scope Z_scope.
    k-th change equals the initial level plus the quantities of ALL accesses at instants up to that change time
    (-q at the start of each unloading task, +q at the completion of each loading task), every access is a reported
    change, and no two accesses happen at the same instant (sorted distinct copy = permutation, cumulative sums).
-   PARTIAL: for concurrent buffers (bubble network + quantified function definitions) and for buffers accessed by
-   optional tasks the level / coverage / sortedness clauses are in spec_C09_swept: swept against the real
-   constraint system on every run, not proved (known finding F13: unscheduled optional tasks still access). *)
+   For a concurrent buffer whose accesses each have their own slot and whose accessing tasks are all mandatory: the
+   reported change times are the access instants in non-decreasing order (util.sort_duplicates: n bubble passes of
+   compare-exchange steps on fresh integers sort any list, duplicates included -- C09_bubble_network_sorts), every
+   access instant is a reported change and conversely, and the level reported after every change equals the initial
+   level plus the quantities of ALL accesses at instants up to that change time, several accesses at one instant
+   being added together (a repeated change time leaves the level unchanged, a new one adds the value of every
+   quantity function, each of which is its quantity at its access instant and 0 elsewhere).
+   PARTIAL: for buffers accessed by optional tasks the level / coverage / sortedness clauses are in spec_C09_swept:
+   swept against the real constraint system on every run and refuted (known finding F13: an unscheduled optional task
+   still accesses its buffers). *)
 Theorem C09_buffers_partial : forall (st : pstate) (e : env),
   sat e (initialize st) ->
   forall k f, In (k, f) (spec_C09 st) -> feval e f = true.
 Proof. exact C09_sound. Qed.
 Print Assumptions C09_buffers_partial.
 
+(* util.sort_duplicates, value level: n bubble passes sort a list of n integers and permute it *)
+Theorem C09_bubble_network_sorts : forall l : list Z,
+  let r := passes (List.length l) l in Sorted.Sorted Z.le r /\ Permutation.Permutation r l.
+Proof. exact bubble_network_sorts. Qed.
+Print Assumptions C09_bubble_network_sorts.
+(* the level recurrence of a concurrent buffer, value level: P = (access instant, quantity) pairs, C = the change times *)
+Theorem C09_concurrent_levels : forall (P : list (Z * Z)) (L0 : Z) (C : list Z),
+  Sorted.Sorted Z.le C -> Permutation.Permutation C (map fst P) ->
+  Forall2 (fun l c => l = L0 + upto_sum P c) (clev P None L0 C) C.
+Proof. intros P L0 C Hs Hp. exact (clev_spec P L0 C [] None L0 Hs Hp (conj eq_refl eq_refl)). Qed.
+Print Assumptions C09_concurrent_levels.
+
+(* the concurrent-buffer clauses are not vacuous: example 3 has a concurrent buffer accessed by two mandatory tasks *)
+Theorem C09_concurrent_clauses_present : exists st, reaches ex3_prog st /\ sat ex3_env (su_asserts (solver_setup default_cfg st))
+  /\ List.length (flat_map (spec_C09_conc st) (x_bufs (ps_ext st))) = 7%nat /\ List.length (spec_C09 st) = 23%nat.
+Proof.
+  destruct ex3_sat as (st & Hr & Hs & _). exists st. split; [exact Hr|]. split; [exact Hs|].
+  unfold reaches in Hr. revert Hr. vm_compute run. intros [= <-]. split; vm_compute; reflexivity.
+Qed.
+Print Assumptions C09_concurrent_clauses_present.
 Theorem C09_buffers_partial_any_configuration : forall (c : solvercfg) (st : pstate) (e : env),
   sat e (su_asserts (solver_setup c st)) ->
   forall k f, In (k, f) (spec_C09 st) -> feval e f = true.
